@@ -1,7 +1,7 @@
 """C03: output is independent of thread scheduling; each block transformed exactly once."""
 from props.conc import *
 
-THEOREMS = ["C03_output_is_schedule_independent", "C03_each_block_exactly_once_by_its_owner"]
+THEOREMS = ["C03_output_is_schedule_independent", "C03_each_block_exactly_once_by_its_owner", "C03_protocol_text_is_the_modelled_one"]
 
 
 def configs(ck, nsched):
